@@ -470,6 +470,115 @@ pub fn corpus() -> Vec<Case> {
     ]
 }
 
+
+/// Independent oracle for text updates (no model involved): whatever occurrence the implementation
+/// picks, a successful multi-hunk update must be SOME in-order, non-overlapping application of the
+/// hunks to the ORIGINAL lines (a hunk may never match lines an earlier hunk inserted, nor skip
+/// backwards), and a refusal must mean that no such application exists.
+fn hunk_oracle_cases(rep: &mut Report, rng: &mut Rng, n: u64) {
+    use rip_workspace::PatchHunk;
+    let scratch = Scratch::new("c12h");
+    let root = scratch.path().join("ws");
+    std::fs::create_dir_all(&root).unwrap();
+    let ws = Workspace::new(&root).unwrap();
+    const L: &[&str] = &["a", "b", "c", "a", "x"];
+    for _ in 0..n {
+        let len = rng.range(1, 9) as usize;
+        let original: Vec<String> = (0..len).map(|_| rng.pick(L).to_string()).collect();
+        // hunks cut from the original at increasing positions, with length changes and repeated context
+        let mut hunks: Vec<PatchHunk> = Vec::new();
+        let mut pos = 0usize;
+        for _ in 0..rng.range(1, 3) {
+            if pos >= original.len() {
+                break;
+            }
+            let start = pos + rng.below((original.len() - pos) as u64) as usize;
+            let blen = rng.range(1, 2).min((original.len() - start) as u64) as usize;
+            let before: Vec<String> = original[start..start + blen].to_vec();
+            let after: Vec<String> = match rng.below(4) {
+                0 => vec![],
+                1 => before.iter().map(|l| l.to_uppercase()).collect(),
+                2 => {
+                    let mut v = before.clone();
+                    v.push(rng.pick(L).to_string());
+                    v.push(rng.pick(L).to_string());
+                    v
+                }
+                _ => {
+                    let mut v = vec![rng.pick(L).to_string()];
+                    v.extend(before.iter().map(|l| format!("{l}!")));
+                    v
+                }
+            };
+            hunks.push(PatchHunk { before, after });
+            pos = start + blen;
+        }
+        if rng.chance(1, 6) {
+            // a hunk that may not apply at all
+            hunks.push(PatchHunk { before: vec![rng.pick(&["zz", "a", "b"]).to_string()], after: vec!["Q".into()] });
+        }
+        let text = format!("{}\n", original.join("\n"));
+        std::fs::write(root.join("f.txt"), &text).unwrap();
+        let mut patch = String::from("*** Begin Patch\n*** Update File: f.txt\n");
+        for h in &hunks {
+            patch.push_str("@@\n");
+            for l in &h.before {
+                patch.push_str(&format!("-{l}\n"));
+            }
+            for l in &h.after {
+                patch.push_str(&format!("+{l}\n"));
+            }
+        }
+        patch.push_str("*** End Patch");
+        let got: Result<String, String> = ws.apply_patch(&patch).map(|_| std::fs::read_to_string(root.join("f.txt")).unwrap_or_default()).map_err(|e| e.to_string());
+        // all in-order non-overlapping applications on the original
+        fn go(orig: &[String], hunks: &[PatchHunk], from: usize, acc: Vec<String>, consumed: usize, out: &mut Vec<Vec<String>>) {
+            let _ = consumed;
+            match hunks.split_first() {
+                None => {
+                    let mut r = acc;
+                    r.extend_from_slice(&orig[from..]);
+                    out.push(r);
+                }
+                Some((h, rest)) => {
+                    let bl = h.before.len();
+                    if bl == 0 || bl > orig.len() {
+                        return;
+                    }
+                    for p in from..=(orig.len() - bl) {
+                        if orig[p..p + bl] == h.before[..] {
+                            let mut a = acc.clone();
+                            a.extend_from_slice(&orig[from..p]);
+                            a.extend_from_slice(&h.after);
+                            go(orig, rest, p + bl, a, 0, out);
+                        }
+                    }
+                }
+            }
+        }
+        let mut candidates: Vec<Vec<String>> = Vec::new();
+        go(&original, &hunks, 0, Vec::new(), 0, &mut candidates);
+        rep.evaluations += 1;
+        rep.count("hunk_oracle_cases");
+        let case = json!({"original": original, "hunks": hunks.iter().map(|h| json!({"before": h.before, "after": h.after})).collect::<Vec<_>>()});
+        match got {
+            Ok(res) => {
+                rep.count("hunk_oracle_applied");
+                let lines: Vec<String> = res.lines().map(|l| l.to_string()).collect();
+                if !candidates.iter().any(|c| *c == lines) {
+                    rep.oracle_failure("C12|update-is-not-an-application-of-its-hunks", &format!("the update succeeded with {lines:?}, which is not an in-order application of the hunks to the original lines"), case);
+                }
+            }
+            Err(_) => {
+                rep.count("hunk_oracle_refused");
+                if !candidates.is_empty() {
+                    rep.oracle_failure("C12|update-refused-although-applicable", "the update was refused although the hunks apply to the original lines in order", case);
+                }
+            }
+        }
+    }
+}
+
 pub fn run(opts: &Opts) -> Report {
     let mut rep = Report::new(
         "C12",
@@ -491,5 +600,6 @@ pub fn run(opts: &Opts) -> Report {
         let c = gen_case(&mut rng);
         eval_case(&c, &mut model, &mut rep);
     }
+    hunk_oracle_cases(&mut rep, &mut rng, if opts.thorough { 200_000 } else { 20_000 } * opts.scale);
     rep
 }
